@@ -18,6 +18,7 @@ import Driver.EndProto
 import Driver.PunctProto
 import Driver.SugarProto
 import Driver.TableFieldProto
+import Driver.CallArgProto
 import Driver.ConfigProto
 import Driver.SelectProto
 import Driver.TypeProto
@@ -113,6 +114,7 @@ def handle (line : String) : String :=
   | ["sugar", "drop", eol, a, b, c, d, f, g] => Driver.SugarProto.handleDrop eol a b c d f g
   | ["sugar", "add", eol, c, d] => Driver.SugarProto.handleAdd eol c d
   | ["tablefield", eol, ind, vt, hs, pl, pt] => Driver.TableFieldProto.handle eol ind vt hs pl pt
+  | ["callarg", eol, ind, vt, hs, pl, pt] => Driver.CallArgProto.handle eol ind vt hs pl pt
   | ["config", req] => Driver.ConfigProto.handle req
   | ["stdin", check, respect, ignored, parses, same] =>
       -- abstract run: the formatter is a parameter (parses? formatted = input?)
